@@ -524,4 +524,84 @@ theorem Trees.encode_rej : (ts : List Tree) → Trees.descOk ts → ∀ (kvs : L
       · simp only [Trees.typed]; exact he.and_right _
 end
 
+/-- the `typed` side condition for a whole supplied value -/
+def PVal.typedFor (ts : List Tree) : PVal → Bool
+  | .dict kvs => Trees.typed ts kvs
+  | _ => true
+
+/-- the strict encoder accepts the supplied value: a dictionary without unknown names that `fill` accepts -/
+def PVal.acceptedBy (ts : List Tree) : PVal → Bool
+  | .dict kvs => !(kvs.any (fun kv => !((Trees.toParams ts).any fun p => p.name == kv.1))) && (Trees.fill ts kvs).isSome
+  | _ => false
+
+/-- **`Request.encode` of the model on a nested description and any supplied value whatsoever**: a library error
+    (or `unmodelled` with an ill-typed constant), or the pure encoder of the filled description from the empty message -/
+theorem encodeMessage_struct_cases (ts : List Tree) (hneed : Trees.need ts + 2 ≤ modelFuel) (hd : Trees.descOk ts)
+    (pv : PVal) (trig : Option Bytes) :
+    (pv.acceptedBy ts = false ∧
+      ∃ e, encodeMessage none (Trees.toParams ts) pv trig true = .error e ∧ RejErr e (pv.typedFor ts)) ∨
+    (∃ kvs ts' s0, pv = .dict kvs ∧ Trees.fill ts kvs = some ts' ∧ pv.acceptedBy ts = true ∧
+      s0.msg = [] ∧ s0.used = [] ∧ s0.warn = 0 ∧ s0.cursorByte = 0 ∧ s0.origin = 0 ∧
+      encodeMessage none (Trees.toParams ts) pv trig true =
+        .ok (((Trees.pair ts').enc s0).msg, ((Trees.pair ts').enc s0).warn)) := by
+  obtain ⟨f, hf⟩ : ∃ f, modelFuel = f + 1 + 1 := ⟨modelFuel - 2, by unfold modelFuel; omega⟩
+  have hf' : Trees.need ts ≤ f := by omega
+  cases pv with
+  | dict kvs =>
+    by_cases hunk : kvs.any (fun kv => !((Trees.toParams ts).any fun p => p.name == kv.1)) = true
+    · refine Or.inl ⟨by simp [PVal.acceptedBy, hunk], .odx, ?_, Or.inl (Or.inr rfl)⟩
+      unfold encodeMessage
+      rw [hf]
+      simp only [encodeDop, encodeComposite, bind, pure, run_bind, run_getS, run_modifyS, run_pure, run_ite, hunk,
+        if_true, odxraise, ne_eq, not_true_eq_false, if_false]
+    · have hknown : kvs.any (fun kv => !((Trees.toParams ts).any fun p => p.name == kv.1)) = false := by
+        simpa using hunk
+      cases hfill : Trees.fill ts kvs with
+      | none =>
+        obtain ⟨e, s', hrun, he⟩ := Trees.encode_rej ts hd kvs hfill f hf' true { trig := trig, isEndOfPdu := false }
+        refine Or.inl ⟨by simp [PVal.acceptedBy, hfill], e, ?_, he⟩
+        have hrun' : encodeParams true kvs f (Trees.toParams ts) { trig := trig, isEndOfPdu := false } true
+            = .error (e, s') := hrun
+        unfold encodeMessage
+        rw [hf]
+        simp only [encodeDop, encodeComposite, bind, pure, run_bind, run_getS, run_modifyS, run_pure, run_ite, hknown,
+          Bool.false_eq_true, if_false, ne_eq, not_true_eq_false]
+        rw [hrun']
+      | some ts' =>
+        let s0 : EncState := { trig := trig, isEndOfPdu := false }
+        refine Or.inr ⟨kvs, ts', s0, rfl, hfill, by simp [PVal.acceptedBy, hknown, hfill], rfl, rfl, rfl, rfl, rfl, ?_⟩
+        obtain ⟨sp, hrun, hcore⟩ := Trees.encode_fill ts hd kvs ts' hfill f hf' true s0
+        obtain ⟨e, rfl⟩ : ∃ e, f = ts.length + 1 + e := ⟨f - (ts.length + 1), by have := Trees.need_ge ts; omega⟩
+        have hkeys := encodeKeyValues_trees ts e { sp with isEndOfPdu := false } true
+        have hrun' : encodeParams true kvs (ts.length + 1 + e) (Trees.toParams ts)
+            { trig := trig, isEndOfPdu := false } true = .ok ((), sp) := hrun
+        unfold encodeMessage
+        rw [hf]
+        simp only [encodeDop, encodeComposite, bind, pure, run_bind, run_getS, run_modifyS, run_pure, run_ite, hknown,
+          Bool.false_eq_true, if_false, ne_eq, not_true_eq_false]
+        rw [hrun']
+        simp only []
+        rw [hkeys]
+        simp only [hcore.1, hcore.2.2.1]
+  | atom _ | list _ | none | pair _ _ | keyed _ _ | nokey _ =>
+    refine Or.inl ⟨rfl, .encode, ?_, Or.inl (Or.inl rfl)⟩
+    unfold encodeMessage
+    rw [hf]
+    simp only [encodeDop, encodeComposite, bind, pure, run_bind, run_getS, run_modifyS, run_pure, odxraise, if_true]
+
+/-- the decoder on the PDU of an accepted value returns the completed value tree -/
+theorem struct_roundtrip_fill (ts : List Tree) (hneed : Trees.need ts + 2 ≤ modelFuel) (hd : Trees.descOk ts)
+    (kvs : List (String × PVal)) (ts' : List Tree) (hfill : Trees.fill ts kvs = some ts') (s0 : EncState)
+    (hm : s0.msg = []) (hw : s0.warn = 0) (hc : s0.cursorByte = 0) (ho : s0.origin = 0)
+    (hwarn : ((Trees.pair ts').enc s0).warn = 0) :
+    ∃ cursor, decodeMessage none (Trees.toParams ts) ((Trees.pair ts').enc s0).msg true =
+      .ok (.dict (Trees.complete ts kvs), cursor) := by
+  obtain ⟨hok, htp, hnd, hval⟩ := Trees.fill_ok ts hd kvs ts' hfill
+  have hg := Trees.good ts' hok
+  have hall : AllBytes s0.msg := by rw [hm]; intro b hb; cases hb
+  obtain ⟨hv, _, _, _, hfit⟩ := hg.rt s0 { msg := ((Trees.pair ts').enc s0).msg } hall (by rw [hwarn, hw]) (by simp [ho])
+    (by simp [hc]) (hg.allBytes s0 hall) (Nat.le_refl _) (by intro a _; rfl)
+  refine ⟨((Trees.pair ts').dec { msg := ((Trees.pair ts').enc s0).msg }).2.cursorByte, ?_⟩
+  rw [← htp, decodeMessage_tree ts' (by rw [hnd]; exact hneed) hok _ hfit, hv, hval]
+
 end OdxVerif.Codec
